@@ -40,7 +40,7 @@ func (sc *Scen) restartNode() error {
 func (sc *Scen) randomPlan() Plan {
 	r := sc.r
 	var p Plan
-	if r.Chance(55) {
+	if sc.clean || r.Chance(55) {
 		return p // no failure injected in this step
 	}
 	if r.Chance(6) {
@@ -116,6 +116,81 @@ func (sc *Scen) randomPlan() Plan {
 
 func (sc *Scen) ident() string { return sc.id.String() }
 
+// deviations are switched off in directed (scripted) scenarios
+func (sc *Scen) dev(p int) bool { return !sc.clean && sc.r.Chance(p) }
+func (sc *Scen) devCase(n int) int {
+	if sc.clean {
+		return -1
+	}
+	return sc.r.Intn(n)
+}
+
+// directed scenarios: run first, before the random ones (the corpus of shapes that matter)
+type directed struct {
+	role, chain string
+	steps       []string
+}
+
+var directedScenarios = []directed{
+	{"out_sender", "btc", []string{"start", "out_agreement", "otb", "tx_confirmed", "restart"}},
+	{"out_sender", "lbtc", []string{"start", "out_agreement", "otb", "tx_confirmed"}},
+	{"in_receiver", "btc", []string{"request", "otb", "tx_confirmed"}},
+	{"in_receiver", "lbtc", []string{"request", "otb", "tx_confirmed", "timeout"}},
+	{"out_receiver", "btc", []string{"request", "paid_fee", "paid_claim"}},
+	{"out_receiver", "lbtc", []string{"request", "paid_fee", "csv"}},
+	{"in_sender", "btc", []string{"start", "in_agreement", "coop"}},
+	{"in_sender", "lbtc", []string{"start", "in_agreement", "cancel", "csv"}},
+	// a peer answering with the agreement type of the other swap direction
+	{"out_sender", "btc", []string{"start", "in_agreement", "out_agreement"}},
+	{"in_sender", "btc", []string{"start", "out_agreement", "in_agreement"}},
+	// timeouts at later points
+	{"out_sender", "lbtc", []string{"start", "out_agreement", "otb", "tx_confirmed", "timeout"}},
+	{"out_sender", "btc", []string{"start", "out_agreement", "timeout", "otb"}},
+	{"out_receiver", "btc", []string{"request", "timeout", "paid_fee"}},
+	{"in_sender", "btc", []string{"start", "restart", "in_agreement"}},
+	{"out_sender", "btc", []string{"start", "restart"}},
+	{"in_receiver", "lbtc", []string{"request", "restart", "otb"}},
+	{"out_receiver", "lbtc", []string{"request", "paid_fee", "restart", "csv"}},
+	{"in_sender", "lbtc", []string{"start", "in_agreement", "restart", "paid_claim"}},
+	{"out_sender", "lbtc", []string{"start", "out_agreement", "otb", "restart", "tx_confirmed"}},
+	{"in_receiver", "btc", []string{"request", "otb", "cancel", "restart"}},
+	{"out_receiver", "btc", []string{"request", "paid_fee", "cancel", "coop", "csv"}},
+	{"in_sender", "btc", []string{"start", "in_agreement", "duplicate", "otb", "paid_fee", "tx_confirmed", "csv"}},
+}
+
+func (sc *Scen) stepNamed(n string) {
+	switch n {
+	case "start":
+		sc.stepStart()
+	case "request":
+		sc.stepRequest()
+	case "out_agreement":
+		sc.stepOutAgreement()
+	case "in_agreement":
+		sc.stepInAgreement()
+	case "otb":
+		sc.stepOtb()
+	case "tx_confirmed":
+		sc.stepTxConfirmed()
+	case "paid_fee":
+		sc.stepPaid(true)
+	case "paid_claim":
+		sc.stepPaid(false)
+	case "csv":
+		sc.stepCsv()
+	case "coop":
+		sc.stepCoopMsg()
+	case "cancel":
+		sc.stepCancelMsg()
+	case "timeout":
+		sc.stepTimeout()
+	case "restart":
+		sc.stepRestart()
+	case "duplicate":
+		sc.stepDuplicate()
+	}
+}
+
 func (sc *Scen) claimAmount() (amt uint64) {
 	defer func() {
 		if recover() != nil {
@@ -133,7 +208,7 @@ func (sc *Scen) claimAmount() (amt uint64) {
 func (sc *Scen) stepStart() {
 	r := sc.r
 	ppm := int64(r.Range(0, 50000))
-	if r.Chance(10) {
+	if sc.dev(10) {
 		ppm = -1000
 	}
 	var created *swap.SwapStateMachine
@@ -194,7 +269,7 @@ func (sc *Scen) stepRequest() {
 	pub := sc.peerPub()
 	limit := int64(r.Range(20000, 1000000))
 	// deviations in the request itself
-	switch r.Intn(14) {
+	switch sc.devCase(14) {
 	case 0:
 		version = uint8(r.Intn(10))
 	case 1:
@@ -240,22 +315,22 @@ func (sc *Scen) stepPeerMsg(kind string, ev string, msg interface{}, t messages.
 func (sc *Scen) stepOutAgreement() {
 	r := sc.r
 	fee := uint64(r.Range(100, 900))
-	if r.Chance(15) {
+	if sc.dev(15) {
 		fee = uint64(r.Range(901, 5000)) // above 3x the default estimate of 300
 	}
 	payreq := sc.env.fresh("lnfee")
-	if !r.Chance(5) {
+	if !sc.dev(5) {
 		sc.env.Decode[payreq] = DecodeRes{Hash: randHex(r, 32), Msat: fee * 1000, Cltv: 18}
 	}
 	prem := int64(r.Range(-2000, 3000))
-	switch r.Intn(10) {
+	switch sc.devCase(10) {
 	case 0:
 		prem = 1 << 40
 	case 1:
 		prem = -int64(sc.amount) - 5
 	}
 	pub := sc.peerPub()
-	if r.Chance(5) {
+	if sc.dev(5) {
 		pub = "nothex"
 	}
 	msg := &swap.SwapOutAgreementMessage{ProtocolVersion: sc.version, SwapId: sc.id, Pubkey: pub, Payreq: payreq, Premium: prem}
@@ -265,11 +340,11 @@ func (sc *Scen) stepOutAgreement() {
 func (sc *Scen) stepInAgreement() {
 	r := sc.r
 	prem := int64(r.Range(-2000, 3000))
-	if r.Chance(10) {
+	if sc.dev(10) {
 		prem = 1 << 40
 	}
 	pub := sc.peerPub()
-	if r.Chance(5) {
+	if sc.dev(5) {
 		pub = pub[:20]
 	}
 	msg := &swap.SwapInAgreementMessage{ProtocolVersion: sc.version, SwapId: sc.id, Pubkey: pub, Premium: prem}
@@ -288,7 +363,7 @@ func (sc *Scen) stepOtb() {
 	claim := sc.claimAmount()
 	msat := claim * 1000
 	cltv := sc.policyFinalCltv()
-	switch r.Intn(12) {
+	switch sc.devCase(12) {
 	case 0:
 		msat++
 	case 1:
@@ -301,20 +376,20 @@ func (sc *Scen) stepOtb() {
 		msat = 0
 	}
 	payreq := sc.env.fresh("lnclaim")
-	if !r.Chance(4) {
+	if !sc.dev(4) {
 		sc.env.Decode[payreq] = DecodeRes{Hash: randHex(r, 32), Msat: msat, Cltv: cltv}
 	}
 	txid := randHex(r, 32)
-	if r.Chance(4) {
+	if sc.dev(4) {
 		txid = txid[:30]
 	}
 	bk := ""
 	if sc.chain == "lbtc" {
 		bk = randHex(r, 32)
-		if r.Chance(6) {
+		if sc.dev(6) {
 			bk = PickS(r, []string{"", "00", bk + "11"})
 		}
-	} else if r.Chance(5) {
+	} else if sc.dev(5) {
 		bk = randHex(r, 32)
 	}
 	msg := &swap.OpeningTxBroadcastedMessage{SwapId: sc.id, Payreq: payreq, TxId: txid, ScriptOut: uint32(r.Intn(3)), BlindingKey: bk}
@@ -329,7 +404,7 @@ func (sc *Scen) stepCancelMsg() {
 func (sc *Scen) stepCoopMsg() {
 	r := sc.r
 	pk := randHex(r, 32)
-	if r.Chance(12) {
+	if sc.dev(12) {
 		pk = PickS(r, []string{"", "zz" + pk[2:], pk[:62], pk + "00"})
 	}
 	msg := &swap.CoopCloseMessage{SwapId: sc.id, Message: "coop", Privkey: pk}
@@ -349,7 +424,7 @@ func (sc *Scen) stepPaid(fee bool) {
 func (sc *Scen) stepTxConfirmed() {
 	r := sc.r
 	hexs := "0200" + randHex(r, 16)
-	withErr := r.Chance(12)
+	withErr := sc.dev(12)
 	sc.doStep(stepSpec{kind: fmt.Sprintf("tx_confirmed(err=%v)", withErr), plan: sc.randomPlan(),
 		input: func(post *swap.SwapStateMachine) string {
 			return fmt.Sprintf("InTxConfirmed %s %s", CoqStr(hexs), CoqBool(withErr))
@@ -464,7 +539,8 @@ func (sc *Scen) stepRandom() {
 	case 9:
 		sc.stepRestart()
 	case 10:
-		if sc.role == "out_sender" {
+		// either agreement type, whatever the role (a peer may send the "wrong" one)
+		if sc.r.Chance(50) {
 			sc.stepOutAgreement()
 		} else {
 			sc.stepInAgreement()
@@ -509,6 +585,9 @@ func runScenario(seed uint64, idx int, dbpath string) (sc *Scen, err error) {
 	case 5:
 		env.MinAmountMsat = 5_000_000_000
 	}
+	if idx < len(directedScenarios) {
+		env.SwapsAllowed, env.PeerAllowed, env.PeerSuspicious, env.LiquidEnabled, env.BitcoinEnabled, env.MinAmountMsat = true, true, false, true, true, 100000*1000
+	}
 	node, err := newNode(env, db)
 	if err != nil {
 		return nil, err
@@ -524,6 +603,18 @@ func runScenario(seed uint64, idx int, dbpath string) (sc *Scen, err error) {
 	}
 	if r.Chance(15) {
 		sc.scid = fmt.Sprintf("%d:%d:%d", r.Range(100, 900000), r.Range(1, 3000), r.Range(0, 5))
+	}
+	if idx < len(directedScenarios) {
+		d := directedScenarios[idx]
+		sc.role, sc.chain, sc.clean = d.role, d.chain, true
+		env.SwapsAllowed, env.PeerAllowed, env.PeerSuspicious, env.LiquidEnabled, env.BitcoinEnabled, env.MinAmountMsat = true, true, false, true, true, 100000*1000
+		for _, st := range d.steps {
+			if st != "start" && st != "request" && sc.id == nil {
+				break
+			}
+			sc.stepNamed(st)
+		}
+		return sc, nil
 	}
 	if sc.role == "out_sender" || sc.role == "in_sender" {
 		sc.stepStart()
